@@ -431,7 +431,9 @@ impl Hasher {
 
 /// JSON for a float slice that keeps NaN/inf readable and truncates long inputs.
 pub fn jf(xs: &[f64]) -> Value {
-    let n = xs.len().min(64);
+    // replay aid: VHARNESS_FULL_ARRAYS=1 writes arrays in full (default: the first 64 values)
+    let cap = if std::env::var_os("VHARNESS_FULL_ARRAYS").is_some() { usize::MAX } else { 64 };
+    let n = xs.len().min(cap);
     let mut v: Vec<Value> = xs[..n].iter().map(|&x| jnum(x)).collect();
     if xs.len() > n {
         v.push(json!(format!("... ({} values total)", xs.len())));
